@@ -199,6 +199,59 @@ func init() {
 		if err != nil {
 			return "", err
 		}
+		// control skeletons of the bucket loops (every trie is visited; the only early exit is "found")
+		var skel func(stmts []ast.Stmt, out *[]string)
+		show := func(n ast.Node) string {
+			var buf bytes.Buffer
+			_ = printer.Fprint(&buf, token.NewFileSet(), n)
+			return buf.String()
+		}
+		skel = func(stmts []ast.Stmt, out *[]string) {
+			for _, st := range stmts {
+				switch x := st.(type) {
+				case *ast.RangeStmt:
+					*out = append(*out, "range "+show(x.X)+" {")
+					skel(x.Body.List, out)
+					*out = append(*out, "}")
+				case *ast.ForStmt:
+					c := ""
+					if x.Cond != nil {
+						c = show(x.Cond)
+					}
+					*out = append(*out, "for "+c+" {")
+					skel(x.Body.List, out)
+					*out = append(*out, "}")
+				case *ast.IfStmt:
+					*out = append(*out, "if "+show(x.Cond)+" {")
+					skel(x.Body.List, out)
+					*out = append(*out, "}")
+					if x.Else != nil {
+						*out = append(*out, "else {")
+						if bl, ok := x.Else.(*ast.BlockStmt); ok {
+							skel(bl.List, out)
+						} else {
+							skel([]ast.Stmt{x.Else}, out)
+						}
+						*out = append(*out, "}")
+					}
+				case *ast.ReturnStmt:
+					*out = append(*out, "return")
+				case *ast.BranchStmt:
+					*out = append(*out, x.Tok.String())
+				case *ast.BlockStmt:
+					skel(x.List, out)
+				}
+			}
+		}
+		for _, d := range []struct{ fn, name string }{{"GetValue", "getValueLoop"}, {"FindValuesByLike", "findLikeLoop"},
+			{"FindValuesByRegexp", "findRegexpLoop"}, {"Suggest", "suggestLoop"}, {"GetValues", "getValuesLoop"}} {
+			fd := FindFunc(tb, "TrieBucket", d.fn)
+			var out []string
+			if fd != nil && fd.Body != nil {
+				skel(fd.Body.List, &out)
+			}
+			sb.WriteString("\ndef " + d.name + " : List String := " + LeanStrList(out) + "\n")
+		}
 		sb.WriteString("\ndef bucketWriteCalls : List String := " + LeanStrList(CallSeq(FindFunc(tb, "TrieBucket", "Write"))) + "\n")
 		tbb, err := parse("index/model/trie_bucket_builder.go")
 		if err != nil {
